@@ -288,6 +288,17 @@ struct Chars {
         mpz_class z = draw_rep<Rep>(w);
         if (!in_range<Rep>(z)) z = 0;
         unsigned m = unsigned(w.next() % 8);
+        if constexpr (is_scaled<T>) {
+            // the decimal conversion keeps an int64 significand and multiplies it by ten while it stays below INT64_MAX / 10: reps whose
+            // running significand (rep / 2^j for a negative exponent) lands on that limit +- 2
+            if (rep_width<Rep>() >= 64 && m == 7) {
+                mpz_class t = zmax<std::int64_t>() / 10 + (long(w.next() % 5) - 2);
+                unsigned j = unsigned(w.next() % 5);
+                mpz_class c = (t << j) + to_mpz(w.next() % (std::uint64_t{1} << j));
+                if (w.next() & 1) c = -c;
+                if (in_range<Rep>(c)) z = c;
+            }
+        }
         int maxlen = std::min(capacity + 2, BUFMAX);
         int len = int(w.next() % unsigned(maxlen + 1));
         if (m == 0) len = int(w.next() % 4);
